@@ -139,6 +139,8 @@ def main(argv=None):
     reasons = list(lost)
     fin = mod.finalize(merged, args.tier) if hasattr(mod, 'finalize') else {}
     reasons += fin.get('inconclusive', [])
+    if not merged.samples:
+        reasons.append('no sample case was recorded by any shard')
     extra_cov = fin.get('coverage', {})
 
     # anchored line coverage
